@@ -367,6 +367,14 @@ class MTH_cls(object):
         return ADV_CALLEE(*args, **kwargs)
     def m_kwonly(self, *args, a, **kwargs):
         return self.target(*args, **kwargs)
+def PO_callee(x=1, /, *, y=2):
+    return 0
+def FWD_only_kwargs_to_posonly(a, **kwargs):
+    return PO_callee(**kwargs)
+def FWD_unused_args_to_posonly(a, *args, **kwargs):
+    return PO_callee(**kwargs)
+def FWD_only_args_to_kwonly(a, *args):
+    return ADV_CALLEE(*args)
 MTH_inst = MTH_cls()
 MTH_bound_posonly_self = MTH_inst.m_posonly_self
 MTH_bound_posonly_two = MTH_inst.m_posonly_two
@@ -380,7 +388,8 @@ MTH_unbound_plain = MTH_cls.m_plain
 LAMBDA_NAMES = ('LAM_assign', 'LAM_wraps', 'LAM_dict', 'LAM_returned', 'LAM_paren', 'LAM_continuation', 'LAM_two_on_a_line',
                 'LAM_method', 'LAM_unbound', 'LAM_decorated_def', 'LAM_partial_of_lambda', 'LAM_oneline', 'LAM_indented',
                 'MTH_bound_posonly_self', 'MTH_bound_posonly_two', 'MTH_bound_plain', 'MTH_bound_cls', 'MTH_cls_cls', 'MTH_static',
-                'MTH_bound_kwonly', 'MTH_unbound_plain')
+                'MTH_bound_kwonly', 'MTH_unbound_plain', 'FWD_only_kwargs_to_posonly', 'FWD_unused_args_to_posonly',
+                'FWD_only_args_to_kwonly')
 
 
 def check_adversarial(st):
